@@ -788,6 +788,11 @@ def _class_attr_value(self, owner: ClassInfo, name: str, expr, st: State) -> Ter
 
             if struct_layout(expr.args[0].value) is not None:
                 return mk("structobj", expr.args[0].value)
+    if (isinstance(expr, ast.Call) and isinstance(expr.func, ast.Name) and expr.func.id == "dict" and len(expr.args) == 1 and not expr.keywords
+            and isinstance(expr.args[0], (ast.GeneratorExp, ast.ListComp)) and isinstance(expr.args[0].elt, ast.Tuple) and len(expr.args[0].elt.elts) == 2):
+        # dict((c.TAG, c) for c in (A, B, C)) is the comprehension {c.TAG: c for c in (A, B, C)}
+        ge_ = expr.args[0]
+        expr = ast.copy_location(ast.DictComp(key=ge_.elt.elts[0], value=ge_.elt.elts[1], generators=ge_.generators), expr)
     if isinstance(expr, ast.DictComp) or isinstance(expr, ast.Dict):
         v = self._static_dispatch_table(owner, expr)
         if v is not None:
